@@ -142,22 +142,31 @@ def r4(ctx, prog):
         ok2 = h.path(a[0]) == 'content.level' and 'content.module_id' in q.subtree_paths(h, a[1])
         ctx.ob('C09.R4', '%s|filter-args' % h.name, ok2, 'filter receives the record\'s own level and module id', where=h.loc(fl[0]['i']))
     f = prog.fn1(SINK + '::filter')
-    lvl = next((p for p in f.params if p['n'] == 'level'), None)
-    rets = q.returns(f)
-    okr = bool(lvl) and len(rets) >= 2
-    kinds = set()
-    for r in rets:
-        v = f.s(f.strip_casts(r.get('val')))
-        if not (v and v['k'] == 'BinaryOperator' and v.get('op') == '<='):
-            okr = False
-            continue
-        l = f.s(f.strip_casts(v['ch'][0]))
-        if not (l and l['k'] == 'DeclRefExpr' and l.get('d') == lvl['d']):
-            okr = False
-        rp = f.path(v['ch'][1])
-        kinds.add('default' if rp.endswith('default_level_') else 'module' if 'second' in rp else '?')
-    ctx.ob('C09.R4', '%s|compare' % f.name, okr and kinds == {'default', 'module'},
-           'returns are `level <= <module level>` and `level <= default_level_` (%s)' % sorted(kinds), where=f.loc(f.body))
+    # folded, not matched: filter() is interpreted for every level 0..8 against every combination of a default threshold and a threshold of the module (or none)
+    from rules import C09_sinks
+    from tbxlint.minterp import S as _S
+    wrong = None
+    try:
+        pg = prog
+        if not any(g.name.endswith('LogAddPrintfFunc') for g in pg.funcs.values()):
+            pg = extract('ALL')
+        bench = C09_sinks.Bench(pg, nsinks=1)
+        rec = bench.sinks[0]
+        for dflt in (0, 3, 8):
+            for modlvl in (None, 0, 3, 7, 8):
+                rec['default_level_'] = dflt
+                rec['modules_level_'] = {'__map__': True}
+                if modlvl is not None:
+                    rec['modules_level_'][_S('m')] = modlvl
+                for level in range(0, 9):
+                    got = bench.call(rec, 'filter', [level, _S('m')])
+                    want = level <= (modlvl if modlvl is not None else dflt)
+                    if bool(got) != want and wrong is None:
+                        wrong = 'filter(%d, "m") answers %s with default threshold %d and %s' % (level, bool(got), dflt, 'threshold %d for the module' % modlvl if modlvl is not None else 'no threshold for the module')
+    except AnalysisBroken as e:
+        wrong = str(e)
+    ctx.ob('C09.R4', '%s|compare' % f.name, wrong is None, 'filter(level, module) is level <= (the module\'s threshold if one is set, else the default), folded over levels 0..8 and thresholds' if wrong is None else wrong,
+           where=f.loc(f.body))
 
 
 def buffer_sources(f, ptr_decl, use_pt):
@@ -690,4 +699,6 @@ def run(ctx):
     ctx.guard(r11, ctx, prog)
     ctx.guard(C09_replay.r12, ctx, prog)
     ctx.guard(C09_replay.r13, ctx, prog)
+    from rules import C09_sinks
+    ctx.guard(C09_sinks.r14, ctx, prog)
     return prog
